@@ -2,14 +2,21 @@
 (* Trace judge for FzfScreen.  One record per settle point of a real session (tmux pane W x H, real fzf built     *)
 (* with -tags verif): the state logged by the last term.* hook event, the result list logged by the last          *)
 (* term.list event, the configuration, and the screen captured from the terminal emulator.                        *)
-(*   r = [w, h, wide, zero, cfg, st, maxItems, orig, rows]                                                         *)
-(*     st    = [input, cx, xoffset, list, texts, sel, multi, cy, offset, count, track]   (FzfScreen's state)       *)
+(*   r = [w, h, wide, zero, cfg, st, vis, hmissing, maxItems, orig, rows]                                          *)
+(*     hmissing : how many of the --header-lines rows are reserved without an input record                         *)
+(*     filtered : the list came from a filtering pass of the matcher (a pattern or a deny list), term.list `pass`   *)
+(*     st    = [input, cx, xoffset, list, texts, sel, multi, cy, offset, count, track, pattern]                    *)
+(*             pattern: the pattern of the matcher result the list was taken from (match.publish), <<>> = none     *)
+(*     vis   : the show / hide / toggle actions on the header and input sections the trace logged so far, in order *)
+(*             (term.act); the flags of FzfScreen's state are computed from them here (VisAfter)                   *)
 (*     orig  : the input records of the listed items (items never change after they have been read)               *)
 (*     rows  : the captured screen, top to bottom, one text (sequence of cells) per row, trailing blanks removed   *)
-(* Verdict: the screen is exactly Render(st, geometry, cfg).  Only where an inline info text has no room left      *)
-(* beside the query (its clipping is not modelled) the prompt row is held to the documented claims alone.          *)
-(* A screen that differs from Render exactly by FzfScreen's named deviation is reported as "known ..." (still a    *)
-(* mismatch: the check matches it against known_findings.json).                                                    *)
+(* Verdict: the screen is exactly Render(st, geometry, cfg).  Rows whose exact content the specification leaves    *)
+(* open are held to the documented claims alone: the prompt row where an inline info text has no room left beside *)
+(* the query (its clipping is not modelled), and list rows that show a part of a line that is too long when the    *)
+(* position of the match depends on the matching algorithm (~Determined) or the line has zero-width cells.         *)
+(* A screen that differs from Render exactly by one of FzfScreen's named deviations is reported as "known ..."     *)
+(* (still a mismatch: the check matches it against known_findings.json).                                           *)
 EXTENDS FzfScreen, Json, IOUtils
 
 TraceLog == ndJsonDeserialize(IOEnv.TRACE)
@@ -19,29 +26,67 @@ JInit == l \in 1..(IF Len(TraceLog) < Shards THEN Len(TraceLog) ELSE Shards)
 JNext == l + Shards <= Len(TraceLog) /\ l' = l + Shards
 
 G(r) == [w |-> r.w, h |-> r.h, wide |-> Range(r.wide), zero |-> Range(r.zero)]
+St(r) == VisAfter(VisInit(r.cfg), r.vis, 1) @@ r.st
 ExactDomain(s, g, c) == InlineInfo(c) => InfoFits(QShown(s, g, c), s, g, c)
 
-Verdict(r) ==
+(* screen rows that are only held to the claims; gi / ce: the finder's area and the configuration in effect *)
+OpenWindow(t, s, gi, ce) ==
+    /\ ce.hscroll /\ TW(t, gi) > TextRoom(gi, ce)
+    /\ \/ s.pattern # <<>> /\ ~Determined(t, s.pattern, gi)
+       \/ \E j \in 1..Len(t) : t[j] \in gi.zero
+Loose(s, g, c) ==
+    LET gi == Inner(g, c)
+        ce == Eff(s, c)
+        d == IF c.border THEN 1 ELSE 0
+    IN {k + d : k \in {i \in 1..gi.h :
+          LET sl == SlotAt(i - 1, gi, ce) IN
+          \/ sl.kind = "prompt" /\ ~ExactDomain(s, gi, ce)
+          \/ sl.kind = "item" /\ s.offset + sl.ix < N(s) /\ OpenWindow(s.texts[s.offset + sl.ix + 1], s, gi, ce)}}
+
+Pre(r, s) ==                                    \* what can be said before looking at the rows ("" = nothing wrong)
     LET g == G(r)
         c == r.cfg
-        s == r.st
-        R == Render(s, g, c)
-    IN IF r.st.texts # r.orig THEN "items"
+    IN IF s.texts # r.orig THEN "items"
        ELSE IF ~(0 <= s.xoffset /\ s.xoffset <= s.cx /\ s.cx <= Len(s.input)) THEN "xoffset"
-       ELSE IF r.maxItems # MaxItems(g, c) THEN "maxitems"
+       ELSE IF r.maxItems # MaxItems(Inner(g, c), Eff(s, c)) THEN "maxitems"
        ELSE IF Len(r.rows) # g.h THEN "height"
-       ELSE IF ExactDomain(s, g, c)
-            THEN (IF r.rows = R THEN "ok"
-                  ELSE IF DevInfoTail(r.rows, s, g, c) THEN "known info-tail-not-cleared"
-                  ELSE "exact " \o FailedClaims(r.rows, s, g, c))
-            ELSE IF \A i \in 1..g.h : SlotAt(i - 1, g, c).kind = "prompt" \/ r.rows[i] = R[i]
-                 THEN (IF Claims(r.rows, s, g, c) THEN "ok" ELSE "claims " \o FailedClaims(r.rows, s, g, c))
-                 ELSE "exact " \o FailedClaims(r.rows, s, g, c)
-DiffRows(r) == LET R == Render(r.st, G(r), r.cfg) IN
+       ELSE ""
+Core(r, s) ==                                   \* the verdict if the program's state is s
+    LET g == G(r)
+        c == r.cfg
+        R == Render(s, g, c)
+        L == Loose(s, g, c)
+    IN IF Pre(r, s) # "" THEN Pre(r, s)
+       ELSE IF \A i \in 1..g.h : i \in L \/ r.rows[i] = R[i]
+            THEN (IF L = {} \/ Claims(r.rows, s, g, c) THEN "ok" ELSE "claims " \o FailedClaims(r.rows, s, g, c))
+            ELSE IF L = {} /\ DevInfoTail(r.rows, s, g, c) THEN "known info-tail-not-cleared"
+            ELSE "exact " \o FailedClaims(r.rows, s, g, c)
+Verdict(r) ==
+    LET s == St(r)
+        v == Core(r, s)
+        a1 == DevHeaderLinesStayApplies(s, r.cfg)
+        s1 == DevHeaderLinesStayState(s)
+        a2 == DevHeaderLinesReversedApplies(s, r.cfg, r.vis)
+        LostOK(ss) == Pre(r, ss) = "" /\ \E swap \in BOOLEAN : r.rows = DevInputWindowLostScreen(ss, G(r), r.cfg, swap)
+        \* the observed screen with the rows of the missing header lines blanked
+        Patched(ss) == [r EXCEPT !.rows = [i \in 1..Len(r.rows) |->
+                            IF i \in MissingHeaderRows(G(r), Eff(ss, r.cfg), r.hmissing) THEN <<>> ELSE r.rows[i]]]
+    IN IF v = "ok" THEN v
+       ELSE IF a1 /\ Core(r, s1) = "ok" THEN "known header-lines-window-not-hidden"
+       ELSE IF a2 /\ LostOK(s) THEN "known header-lines-reversed-after-show-input"
+       ELSE IF a1 /\ a2 /\ LostOK(s1) THEN "known header-lines-window-not-hidden+reversed"
+       ELSE IF r.hmissing > 0 /\ r.vis # <<>> /\ ~r.cfg.border /\ Len(r.rows) = r.h /\ Core(Patched(s), s) = "ok"
+            THEN "known missing-header-lines-not-cleared"
+       ELSE IF DevKeepRightLostApplies(s, r.cfg, r.filtered) /\ Core([r EXCEPT !.cfg = DevKeepRightLostCfg(r.cfg)], s) = "ok"
+            THEN "known keep-right-lost-after-exclude"
+       ELSE IF DevStaleRowsApplies(r.cfg, r.vis) /\ Pre(r, s) = "" /\ DevStaleRows(r.rows, s, G(r), r.cfg, Loose(s, G(r), r.cfg))
+            THEN "known rows-not-cleared-after-header-toggle-reverse-list"
+       ELSE v
+DiffRows(r) == LET R == Render(St(r), G(r), r.cfg) IN
                {i \in 1..Min2(Len(r.rows), r.h) : r.rows[i] # R[i]}
 RECURSIVE CatFrom(_, _)
 CatFrom(t, i) == IF i > Len(t) THEN "" ELSE t[i] \o CatFrom(t, i + 1)
-Expected(r) == LET R == Render(r.st, G(r), r.cfg) IN {<<i, CatFrom(R[i], 1)>> : i \in DiffRows(r)}
+Expected(r) == LET R == Render(St(r), G(r), r.cfg) IN {<<i, CatFrom(R[i], 1)>> : i \in DiffRows(r)}
 JInv == LET v == Verdict(TraceLog[l]) IN
         v = "ok" \/ (PrintT(<<"MISMATCH", l, v>>) /\ PrintT(<<"EXPECT", ToJson([l |-> l, rows |-> Expected(TraceLog[l])])>>))
 =============================================================================
